@@ -6,6 +6,7 @@ Import ListNotations.
 Require Import Grist.Model.Lookup Grist.Proofs.Lookup_proofs Grist.Proofs.LookupVal_proofs
   Grist.Proofs.LookupIndex_proofs Grist.Proofs.LookupSort_proofs Grist.Proofs.LookupWorld_proofs
   Grist.Proofs.LookupSpec_proofs.
+Require Import Grist.Lib.LkMonad Grist.Model.LookupRt GristGen.Lookup_gen Grist.Proofs.LookupGen_proofs.
 Open Scope Z_scope.
 
 (* ---- TwoWayMap ------------------------------------------------------------------------------ *)
@@ -260,3 +261,98 @@ Proof.
   repeat (destruct Hr as [<-|Hr]; [eexists; split; [vm_compute; reflexivity|repeat constructor]|]).
   contradiction.
 Qed.
+
+
+(* ---- the model is the code: bridging to the functions translated from the source on every run ---------- *)
+(* GristGen.Lookup_gen is produced by harness/lk2v.py from table.py, twowaymap.py and lookup.py of the tree being
+   checked.  Each translated function equals the model function the theorems above speak about. *)
+
+Theorem C13_gen_make_sort_spec : forall ob sb ms,
+  gen_make_sort_spec ob sb ms tt =
+  match make_sort_spec ob sb ms with Some s => Ok s tt | None => Exc TypeErr tt end.
+Proof. exact gen_make_sort_spec_ok. Qed.
+
+(* TwoWayMap.insert (with its rollback), remove, remove_left, remove_right, clear: for all bin kinds *)
+Theorem C13_gen_twoway : forall (L R : Type) (leq : L -> L -> bool) (req : R -> R -> bool) lhash rhash lfmt rfmt lk rk
+                                (t : twm L R) (left : L) (right : R),
+  run_out (gen_tw_insert leq req lhash rhash lfmt rfmt lk rk left right t) = tw_insert leq req lhash rhash lfmt rfmt lk rk t left right /\
+  run_out (gen_tw_remove leq req lhash rhash lfmt rfmt lk rk left right t) = tw_remove leq req lhash rhash lk rk t left right /\
+  run_out (gen_tw_remove_left leq req lhash rhash lfmt rfmt lk rk left t) = tw_remove_left leq req lhash rhash lk rk t left /\
+  run_out (gen_tw_remove_right leq req lhash rhash lfmt rfmt lk rk right t) = tw_remove_right leq req lhash rhash lk rk t right /\
+  run_out (gen_tw_clear leq req lhash rhash lfmt rfmt lk rk t) = tw_step leq req lhash rhash lfmt rfmt lk rk t TClear.
+Proof.
+  intros. split; [apply gen_tw_insert_ok|split; [apply gen_tw_remove_ok|split; [apply gen_tw_remove_left_ok|
+    split; [apply gen_tw_remove_right_ok|apply gen_tw_clear_ok]]]].
+Qed.
+
+(* the bin classes (_SingleValueBin, _SingleValueStrictBin, _ContainerBin with the registered set / list / LookupSet
+   functions) of twowaymap.py, dispatched by kind as _mapper_types does: they are the model's add_item / remove_item /
+   remove_key ... *)
+Theorem C13_gen_bins : forall (K A : Type) (keq : K -> K -> bool) (aeq : A -> A -> bool) khash ahash kfmt, equiv keq ->
+  forall kd (m : dict K (bin A)) key value,
+  gen_bin_add_item keq aeq khash ahash kfmt kd key value m =
+    embed_add m (add_item keq aeq khash ahash kfmt kd m key value) /\
+  gen_bin_remove_item keq aeq khash ahash kfmt kd key value m =
+    match remove_item keq aeq khash ahash kd m key value with Some m' => Ok tt m' | None => Exc TypeErr m end /\
+  gen_bin_remove_key keq aeq khash ahash kfmt kd key m =
+    match remove_key keq khash kd m key with Some (m', l) => Ok l m' | None => Exc TypeErr m end.
+Proof.
+  intros. split; [apply gen_bin_add_item_ok|split; [apply gen_bin_remove_item_ok; assumption|apply gen_bin_remove_key_ok]].
+Qed.
+
+(* ... and the calls TwoWayMap makes on its two bin objects (C13_gen_twoway is stated over these calls) *)
+Theorem C13_gen_bin_calls : forall (L R : Type) (leq : L -> L -> bool) (req : R -> R -> bool) lhash rhash lfmt rfmt lk rk,
+  equiv leq -> equiv req -> forall (t : twm L R) (left : L) (right : R),
+  gen_right_bin_add_item_fwd leq req lhash rhash lfmt rk left right t = right_bin_add_item_fwd leq req lhash rhash lfmt rk left right t /\
+  gen_left_bin_add_item_bwd leq req lhash rhash rfmt lk right left t = left_bin_add_item_bwd leq req lhash rhash rfmt lk right left t /\
+  gen_right_bin_remove_item_fwd leq req lhash rhash lfmt rk left right t = right_bin_remove_item_fwd leq req lhash rhash rk left right t /\
+  gen_left_bin_remove_item_bwd leq req lhash rhash rfmt lk right left t = left_bin_remove_item_bwd leq req lhash rhash lk right left t /\
+  gen_right_bin_remove_key_fwd leq req lhash rhash lfmt rk left t = right_bin_remove_key_fwd leq lhash rk left t /\
+  gen_left_bin_remove_key_bwd leq req lhash rhash rfmt lk right t = left_bin_remove_key_bwd req rhash lk right t.
+Proof. intros. apply gen_bin_calls_ok; assumption. Qed.
+
+(* the bin kinds of the two mapping classes (_make_row_key_map) *)
+Theorem C13_gen_kinds : forall cols,
+  (uses_contains cols = false -> (simple_left_kind, simple_right_kind) = (KLookupSet, right_kind cols)) /\
+  (uses_contains cols = true -> (contains_left_kind, contains_right_kind) = (KLookupSet, right_kind cols)).
+Proof. exact gen_kinds_ok. Qed.
+
+(* update_record / remove_row_id of both mapping classes leave the index the model computes *)
+Theorem C13_gen_update_record : forall cols m r cells, lm_inv cols m ->
+  (uses_contains cols = false ->
+     res_state (gen_simple_update_record cols r cells m) = fst (update_record cols m r cells)) /\
+  (uses_contains cols = true ->
+     gen_contains_update_record cols r cells m =
+     Ok (keyset_symdiff (new_keys cols cells) (mapped_keys m r)) (fst (update_record cols m r cells))).
+Proof.
+  intros cols m r cells I. split; intros Hu.
+  - apply gen_simple_update_record_ok. exact Hu.
+  - apply gen_contains_update_record_ok; [exact Hu|]. eapply inv_mapped_hashable; eauto.
+Qed.
+
+Theorem C13_gen_remove_row_id : forall cols m r, lm_inv cols m ->
+  (uses_contains cols = false -> res_state (gen_simple_remove_row_id r m) = fst (remove_row_id cols m r)) /\
+  (uses_contains cols = true -> gen_contains_remove_row_id r m = Ok (mapped_keys m r) (fst (remove_row_id cols m r))).
+Proof.
+  intros cols m r I. split; intros Hu.
+  - apply gen_simple_remove_row_id_ok; [exact Hu|]. apply (single_mapped cols m r I).
+    unfold right_kind. now rewrite Hu.
+  - apply gen_contains_remove_row_id_ok; [exact Hu|]. eapply inv_mapped_hashable; eauto.
+Qed.
+
+(* _do_lookup_with_sort (cache get / sorted() / cache set) and _reset_sorted_versions *)
+Theorem C13_gen_do_lookup_with_sort : forall t key s m,
+  gen_do_lookup_with_sort t key s m =
+  match do_lookup m t (map extract key) s with
+  | (m', LRows l) => Ok (l, tt) m'
+  | (m', LError) => Exc (if key_hashable (map extract key) then OtherErr else TypeErr) m'
+  end.
+Proof. exact gen_do_lookup_with_sort_ok. Qed.
+
+Theorem C13_gen_reset_sorted_versions : forall cols r cells s m,
+  gen_reset_sorted_versions cols r cells s m =
+  match reset_sorted cols m cells s with
+  | Some m' => Ok (dedup vals_eqb (new_keys_iter cols cells)) m'
+  | None => Exc TypeErr m
+  end.
+Proof. exact gen_reset_sorted_versions_ok. Qed.
